@@ -634,7 +634,7 @@ func report(p *Parent, agg *Agg) int {
 
 func writeReplay(env Env, id string, v *Violation) string {
 	h := sha256.Sum256([]byte(v.Key + "\x00" + v.Case))
-	dir := filepath.Join(env.Verif, "replays", id, hex.EncodeToString(h[:6]))
+	dir := filepath.Join(outRoot(env), "replays", id, hex.EncodeToString(h[:6]))
 	os.MkdirAll(dir, 0o755)
 	meta := map[string]any{"property": id, "case": v.Case, "key": v.Key, "msg": v.Msg, "tier": env.Tier, "extra": v.Extra}
 	b, _ := json.MarshalIndent(meta, "", "  ")
@@ -724,8 +724,8 @@ func writeEvidence(p *Parent, agg *Agg, nViol, nKnown int) {
 		"repo_tree":      repoState(env.Repo),
 	}
 	b, _ := json.MarshalIndent(ev, "", " ")
-	os.MkdirAll(filepath.Join(env.Verif, "evidence"), 0o755)
-	os.WriteFile(filepath.Join(env.Verif, "evidence", ch.ID+".json"), append(b, '\n'), 0o644)
+	os.MkdirAll(filepath.Join(outRoot(env), "evidence"), 0o755)
+	os.WriteFile(filepath.Join(outRoot(env), "evidence", ch.ID+".json"), append(b, '\n'), 0o644)
 }
 
 func repoState(repo string) string {
@@ -806,4 +806,13 @@ func (p *Parent) BuildInstrumented(name string, files map[string]string) (string
 		return "", fmt.Errorf("instrumented build failed: %v\n%s", err, o)
 	}
 	return out, nil
+}
+
+// outRoot: evidence and replays go to /verif unless XV_OUT redirects them (used when the harness is pointed
+// at a scratch copy of the repository to try a deliberate property-breaking change).
+func outRoot(env Env) string {
+	if o := os.Getenv("XV_OUT"); o != "" {
+		return o
+	}
+	return env.Verif
 }
